@@ -238,6 +238,15 @@ func (s *statement) materialise(rng *rand.Rand, rep, ptr int) {
 		}
 		y := pd.lv[s.zs[i]]
 		s.ys[i] = &y
+		// with shared pointers, openings of the same polynomial at the same index also share the claimed-value pointer
+		if usePtr {
+			for j := 0; j < i; j++ {
+				if s.pidx[j] == s.pidx[i] && s.zs[j] == s.zs[i] && s.Cs[j] == s.Cs[i] {
+					s.ys[i] = s.ys[j]
+					break
+				}
+			}
+		}
 	}
 }
 
